@@ -46,7 +46,7 @@ Definition tbl_three_month : list seg := [
 Definition tbl_three_month_weighted : list seg := [
   ("dec-jan-feb-weighted"%string, [(12%Z, (1 # 2)%Q); (1%Z, (1 # 1)%Q); (2%Z, (1 # 2)%Q)], (0 # 1)%Q);
   ("jan-feb-mar-weighted"%string, [(1%Z, (1 # 2)%Q); (2%Z, (1 # 1)%Q); (3%Z, (1 # 2)%Q)], (0 # 1)%Q);
-  ("feb-mar-apr-weighted"%string, [(2%Z, (1 # 2)%Q); (3%Z, (1 # 1)%Q); (4%Z, (1 # 2)%Q)], (0 # 1)%Q);
+  ("feb-mar-apr-weighted"%string, [(2%Z, (3602879701896397 # 9007199254740992)%Q); (3%Z, (1 # 1)%Q); (4%Z, (1 # 2)%Q)], (0 # 1)%Q);
   ("mar-apr-may-weighted"%string, [(3%Z, (1 # 2)%Q); (4%Z, (1 # 1)%Q); (5%Z, (1 # 2)%Q)], (0 # 1)%Q);
   ("apr-may-jun-weighted"%string, [(4%Z, (1 # 2)%Q); (5%Z, (1 # 1)%Q); (6%Z, (1 # 2)%Q)], (0 # 1)%Q);
   ("may-jun-jul-weighted"%string, [(5%Z, (1 # 2)%Q); (6%Z, (1 # 1)%Q); (7%Z, (1 # 2)%Q)], (0 # 1)%Q);
@@ -65,7 +65,7 @@ Definition segment_tables : list (string * list seg) := [("single"%string, tbl_s
    prediction segment name -> fitted segment name; None = predict with the fitted names) *)
 Definition prediction_info : list (string * (string * option (list (string * string)))) := [
   ("single"%string, ("single"%string, None));
-  ("three_month_weighted"%string, ("one_month"%string, (Some [("jan"%string, "dec-jan-feb-weighted"%string); ("feb"%string, "jan-feb-mar-weighted"%string); ("mar"%string, "feb-mar-apr-weighted"%string); ("apr"%string, "mar-apr-may-weighted"%string); ("may"%string, "apr-may-jun-weighted"%string); ("jun"%string, "may-jun-jul-weighted"%string); ("jul"%string, "jul-aug-sep-weighted"%string); ("aug"%string, "jul-aug-sep-weighted"%string); ("sep"%string, "aug-sep-oct-weighted"%string); ("oct"%string, "sep-oct-nov-weighted"%string); ("nov"%string, "oct-nov-dec-weighted"%string); ("dec"%string, "nov-dec-jan-weighted"%string)])))
+  ("three_month_weighted"%string, ("one_month"%string, (Some [("jan"%string, "dec-jan-feb-weighted"%string); ("feb"%string, "jan-feb-mar-weighted"%string); ("mar"%string, "feb-mar-apr-weighted"%string); ("apr"%string, "mar-apr-may-weighted"%string); ("may"%string, "apr-may-jun-weighted"%string); ("jun"%string, "may-jun-jul-weighted"%string); ("jul"%string, "jun-jul-aug-weighted"%string); ("aug"%string, "jul-aug-sep-weighted"%string); ("sep"%string, "aug-sep-oct-weighted"%string); ("oct"%string, "sep-oct-nov-weighted"%string); ("nov"%string, "oct-nov-dec-weighted"%string); ("dec"%string, "nov-dec-jan-weighted"%string)])))
 ].
 
 (* the segment type the HourlyModel wrapper fits with *)
